@@ -202,3 +202,68 @@ func TestC18_Enum(t *testing.T) {
 }
 
 var _ = filter.Null
+
+// TestC18_SharedSubfilters: filters are values that user code keeps and
+// combines again.  A base composite is built by accumulation (f = And(f, x)
+// step by step, as a loop over configured restrictions does), then two
+// different filters are derived from the same base value, in both positions
+// (And(base, p) / And(p, base)).  Every one of the filters ever built must
+// keep agreeing with the reference evaluator of its own term - also after the
+// later ones have been constructed (Accept is a function of the object, not of
+// what else was built in the meantime).
+func TestC18_SharedSubfilters(t *testing.T) {
+	rapid.Check(t, func(t *rapid.T) {
+		cfg := termCfg{}
+		kind := rapid.SampledFrom([]termKind{tAnd, tOr}).Draw(t, "kind")
+		mk := func(fs ...filter.Filter) filter.Filter {
+			if kind == tAnd {
+				return filter.And(fs...)
+			}
+			return filter.Or(fs...)
+		}
+		type built struct {
+			tm *term
+			f  filter.Filter
+		}
+		var all []built
+		// the base, by accumulation
+		leaves := rapid.SliceOfN(genTerm(cfg, 1), 1, 5).Draw(t, "baseLeaves")
+		var baseT *term
+		var baseF filter.Filter
+		for i, l := range leaves {
+			if i == 0 {
+				baseT = &term{Kind: kind, Children: []*term{l}}
+				baseF = mk(l.build())
+			} else {
+				baseT = &term{Kind: kind, Children: []*term{baseT, l}}
+				baseF = mk(baseF, l.build())
+			}
+			all = append(all, built{baseT, baseF})
+		}
+		// derived filters sharing the base value
+		nder := rapid.IntRange(2, 4).Draw(t, "derived")
+		for i := 0; i < nder; i++ {
+			p := genTerm(cfg, 1).Draw(t, "extra")
+			switch rapid.IntRange(0, 2).Draw(t, "position") {
+			case 0:
+				all = append(all, built{&term{Kind: kind, Children: []*term{baseT, p}}, mk(baseF, p.build())})
+			case 1:
+				all = append(all, built{&term{Kind: kind, Children: []*term{p, baseT}}, mk(p.build(), baseF)})
+			default:
+				q := genTerm(cfg, 1).Draw(t, "extra2")
+				all = append(all, built{&term{Kind: kind, Children: []*term{baseT, p, q}}, mk(baseF, p.build(), q.build())})
+			}
+		}
+		// judge every filter after everything has been built
+		for i, b := range all {
+			for _, o := range c18Universe {
+				if got, want := b.f.Accept(o), b.tm.eval(o); got != want {
+					t.Fatalf("C18 violation: filter #%d of %d built from shared sub-filters: Accept=%v reference=%v for %s on %s (later filters were derived from the same base value)", i, len(all), got, want, b.tm, describeObj(o))
+				}
+			}
+		}
+		statCase("C18", hashString("shared:"+all[len(all)-1].tm.String()), len(leaves) >= 3, func() interface{} {
+			return map[string]interface{}{"mode": "filters derived from a shared base value", "base": baseT.String(), "filters_built": len(all)}
+		}, "shared_subfilters")
+	})
+}
